@@ -621,9 +621,18 @@ func resOK(out string) bool {
 	return out == "ok" || out == "handle" || strings.HasPrefix(out, "info:")
 }
 
+// the MemMapFs at the bottom of a (possibly wrapped) layer
+func memUnder(l *Layer) afero.Fs {
+	for l.Kind != "mem" && len(l.Kids) > 0 {
+		l = l.Kids[0]
+	}
+	return l.Fs
+}
+
 func c11Case(c *Ctx, id, stack string, items []string) {
 	in := NewInterp(stack)
-	base, layer := in.Top.At("0").Fs, in.Top.At("1").Fs
+	base, layer := memUnder(in.Top.At("0")), in.Top.At("1").Fs
+	wrappedBase := in.Top.At("0").Kind != "mem" // e.g. a ReadOnlyFs: the reference call on the bare base does not apply
 	dur := time.Duration(cacheDurSec(stack)) * time.Second
 	c.Case("case %s %s", id, stack)
 	failed := strings.HasPrefix(id, "u")
@@ -641,7 +650,7 @@ func c11Case(c *Ctx, id, stack string, items []string) {
 			through = true
 		}
 		ref := ""
-		if through && !failed && !isH {
+		if through && !failed && !isH && !wrappedBase {
 			// the same call on a copy of the base alone
 			rf := &Interp{Top: &Layer{Kind: "mem", Fs: cloneMem(base)}, Slots: map[int]afero.File{}}
 			ref = rf.Exec(". - " + strings.Join(f[2:], " "))
@@ -800,7 +809,7 @@ func genC11(r *Rng) []string {
 	return append(items, "snap 0", "snap 1")
 }
 
-var c11Menu = []string{"HRead 0 3", "HReadAt 0 1 0", "HReadAt 0 4 2", "HReadAt 0 5 9", "HWrite 0 5859", "HWriteAt 0 51 1", "HWriteString 0 5a",
+var c11Menu = []string{"HRead 0 3", "HRead 0 0", "HReadAt 0 1 0", "HReadAt 0 4 2", "HReadAt 0 5 9", "HWrite 0 5859", "HWriteAt 0 51 1", "HWriteString 0 5a",
 	"HSeek 0 2 0", "HSeek 0 1 1", "HSeek 0 -2 2", "HTruncate 0 4", "HTruncate 0 14", "HSync 0", "HStat 0"}
 
 func runC11(c *Ctx) {
@@ -849,7 +858,11 @@ func runC11(c *Ctx) {
 	}
 	// every combination of the access / creation bits on a cached file, a file only in the base and a new name
 	nf := 0
-	for _, stack := range cacheStacks {
+	for _, stack := range append(append([]string{}, cacheStacks...), "cache:0(ro(mem),mem)", "cache:1000(ro(mem),mem)") {
+		bt := "0" // the target that fills the base directly
+		if strings.Contains(stack, "(ro(") {
+			bt = "00"
+		}
 		for _, cached := range []bool{true, false} {
 			for m := 0; m < 1<<6; m++ {
 				fl := 0
@@ -861,7 +874,7 @@ func runC11(c *Ctx) {
 				if fl&3 == 3 {
 					continue
 				}
-				items := []string{"0 9 Create 2f66", "0 - HWrite 9 68656c6c6f20776f726c64", "0 - HClose 9", "0 - Chtimes 2f66 1000000000", "0 - Chtimes 2f 1000000000"}
+				items := []string{bt + " 9 Create 2f66", bt + " - HWrite 9 68656c6c6f20776f726c64", bt + " - HClose 9", bt + " - Chtimes 2f66 1000000000", bt + " - Chtimes 2f 1000000000"}
 				if cached {
 					items = append(items, "1 8 Create 2f66", "1 - HWrite 8 68656c6c6f20776f726c64", "1 - HClose 8", "1 - Chtimes 2f66 1000000000", "1 - Chtimes 2f 1000000000")
 				}
